@@ -116,3 +116,53 @@ def slice (s : Scanner) (start stop : Nat) : Res Bytes :=
 
 end Scanner
 end N2V
+
+namespace N2V.Scanner
+
+/-- `str::is_char_boundary` on raw bytes. -/
+def isCharBoundary (s : Bytes) (i : Nat) : Bool :=
+  if i == 0 then true
+  else match s[i]? with
+    | none => i == s.length
+    | some b => b < 128 || b ≥ 192
+
+def boundaryAtOrBelow (s : Bytes) : Nat → Nat
+  | 0 => 0
+  | m + 1 => if isCharBoundary s (m + 1) then m + 1 else boundaryAtOrBelow s m
+
+/-- Split at `\n` like `buf.split(|&c| c == b'\n')`. -/
+def splitLines : Bytes → Bytes → List Bytes
+  | [], cur => [cur]
+  | c :: r, cur => if c == NL then cur :: splitLines r [] else splitLines r (cur ++ [c])
+
+/-- What `format_parse_error` shows: 1-based line, the excerpt (with `...` where it was
+    trimmed) and the caret column relative to the excerpt. -/
+structure ErrView where
+  line : Nat
+  excerpt : Bytes
+  col : Nat
+  deriving DecidableEq, Repr
+
+def dots : Bytes := [46, 46, 46]
+
+/-- The body of the `for (line_number, line) in lines.enumerate()` loop (after the repair of
+    finding F2: both cuts move down to a character boundary). -/
+def formatLines (errOfs : Nat) : List Bytes → Nat → Nat → Res ErrView
+  | [], _, _ => .panic "invalid offset when formatting error"
+  | line :: rest, lineNo, ofs =>
+    if ofs + line.length ≥ errOfs then
+      let col0 := errOfs - ofs
+      let (pre, ctx, col) :=
+        if col0 > 40 then
+          let start := boundaryAtOrBelow line (col0 - 20)
+          (dots, line.drop start, 3 + (col0 - start))
+        else ([], line, col0)
+      let body :=
+        if ctx.length > 40 then ctx.take (boundaryAtOrBelow ctx 40) ++ dots else ctx
+      .ok ⟨lineNo + 1, pre ++ body, col⟩
+    else formatLines errOfs rest (lineNo + 1) (ofs + line.length + 1)
+
+def formatParseError (buf : Array UInt8) (errOfs : Nat) : Res ErrView :=
+  formatLines errOfs (splitLines buf.toList []) 0 0
+
+end N2V.Scanner
